@@ -86,6 +86,23 @@ def _gen(rng):
                 row = fresh_row(i)
             ops.append(["insert", row])
             rows.append(row)
+        elif r < 0.34 and indexed:
+            # several rows for the same few keys in one batch, keys out of order: the last one of each key must win
+            protos = [fresh_row(i * 10 + j) for j in range(rng.randint(2, 3))]
+            if rows and rng.random() < 0.5:
+                protos.append(list(rng.choice(rows)))
+            batch = []
+            for j in range(rng.randint(4, 14)):
+                p = rng.choice(protos)
+                row = fresh_row(i * 10 + j, existing_key=p[keycol])
+                if index_cols == [0, 1]:
+                    row[1] = p[1]
+                batch.append(row)
+            if rng.random() < 0.5:
+                ops.append(["insertb", batch])
+            else:
+                ops += [["insert", row] for row in batch]      # the same rows one by one with nothing read in between
+            rows += batch
         elif r < 0.40:
             batch = [fresh_row(i * 10 + j) for j in range(rng.randint(2, 4))]
             if indexed and rows and rng.random() < 0.4:
